@@ -485,8 +485,8 @@ func (mw *msgWriter) writeHeader(key Header, values ...string) int {
 	buffer.WriteString(string(key))
 	charLength -= len(key)
 	if len(values) == 0 {
-		buffer.WriteString(":\r\n")
-		return lines + 1
+		// A header without any value is not written, hence it does not account for any line
+		return lines
 	}
 	buffer.WriteString(": ")
 	charLength -= 2
